@@ -633,8 +633,11 @@ func (e *SpecEnv) call(x ECall) SVal {
 		r := v.T
 		if v.T.Sort == SSlice {
 			r = SArr(v.T)
+			return SVal{T: And(Ge(r, IntLit(0)), Le(r, e.Heap.Comp(allocComp, SInt))), Go: boolT}
 		}
-		return SVal{T: And(Ge(r, IntLit(0)), Le(r, e.Heap.Comp(allocComp, SInt))), Go: boolT}
+		// an object, or a sub-object (embedded struct: negative address) of an allocated object
+		root := App("root!", SInt, r)
+		return SVal{T: And(Ne(r, IntLit(0)), Ne(root, IntLit(0)), Ge(root, IntLit(0)), Le(root, e.Heap.Comp(allocComp, SInt))), Go: boolT}
 	case "int", "uint", "byte", "mathint", "uint8", "int64", "uint64":
 		return SVal{T: e.intOf(x.Args[0])}
 	case "ref": // address of an lvalue struct / pointer value as integer
